@@ -36,6 +36,14 @@ func forwarderRuntime() []byte {
 		0xf1,       // CALL
 		0x60, 0x00, // PUSH1 0
 		0x52,       // MSTORE
+		0x60, 0xa1, // topic
+		0x60, 0x20, // size
+		0x60, 0x00, // offset
+		0xa1,       // LOG1   (two logs per call: receipts of a block then carry block-wide log indices)
+		0x60, 0xa2, // topic
+		0x60, 0x04, // size
+		0x60, 0x00, // offset
+		0xa1,       // LOG1
 		0x60, 0x20, // PUSH1 32
 		0x60, 0x00, // PUSH1 0
 		0xf3, // RETURN
